@@ -673,6 +673,10 @@ func ifacePlugins(r *refResult, where string, ifi dIface, max time.Duration, epo
 		for _, d := range p.Domains {
 			if d == "" {
 				r.reject("%s: empty domain name", key)
+			} else if strings.HasPrefix(d, ".") || strings.HasSuffix(d, ".") || strings.Contains(d, "..") {
+				// (an empty label, e.g. the absolute form "example.com.": whether the parser may accept it is not stated;
+				// what an accepted one does to the option is C03's business - finding F24)
+				r.unspec("domain name with an empty label")
 			}
 			if seen[d] {
 				r.reject("%s: domain %q repeated", key, d)
@@ -1237,7 +1241,11 @@ func (g *vg) genDNSSL(i int) dDNSSL {
 	n := rapid.IntRange(1, 4).Draw(g.t, l+":n")
 	d.Domains = rapid.SliceOfNDistinct(rapid.SampledFrom(domainPool), n, n, rapid.ID[string]).Draw(g.t, l+":domains")
 	if g.bad(l + ":domains") {
-		switch rapid.IntRange(0, 3).Draw(g.t, l+":baddomains") {
+		switch rapid.IntRange(0, 4).Draw(g.t, l+":baddomains") {
+		case 4:
+			pos := rapid.IntRange(0, len(d.Domains)).Draw(g.t, l+":dotpos")
+			dotted := rapid.SampledFrom([]string{"example.org.", "lan.", "a..b", ".", ".lan", "corp.example.net.."}).Draw(g.t, l+":dotted")
+			d.Domains = append(d.Domains[:pos], append([]string{dotted}, d.Domains[pos:]...)...)
 		case 0:
 			d.Domains = []string{}
 		case 1:
